@@ -48,6 +48,8 @@
 #include <map>
 #include <sstream>
 #include <string>
+#include <sys/prctl.h>
+#include <sys/resource.h>
 #include <sys/wait.h>
 #include <unistd.h>
 #include <vector>
@@ -464,6 +466,9 @@ static int run_batch(const char* list, int timeout_s)
     fflush(stdout);
     pid_t pid = fork();
     if (pid == 0) {
+      prctl(PR_SET_PDEATHSIG, SIGKILL); // never outlive the batch process (a mutated model may loop for ever)
+      struct rlimit cpu_limit = {static_cast<rlim_t>(timeout_s) + 5, static_cast<rlim_t>(timeout_s) + 10};
+      setrlimit(RLIMIT_CPU, &cpu_limit);
       std::vector<char*> av;
       static std::string self = "surf_driver";
       av.push_back(self.data());
